@@ -34,6 +34,7 @@ def outcome_tuple(spec, rep):
 
 class C05(Property):
     id = "C05"
+    anchors = ('finam.sdk.output:Output.get_info', 'finam.sdk.input:Input.exchange_info', 'finam.tools.connect_helper:ConnectHelper.connect')
     technique = "differential monitor: the same composition spec executed under all/many listing and link-order permutations, outcome tuples compared"
     rule = (
         "specs from the C01 generator restricted to the stated domain (producers declare grid and units, no DelayToPush), with ties (equal "
